@@ -134,7 +134,7 @@ def run(ctx):
         dig = [e for e in p.effects if "Digest>::digest" in e[0] or e[0].endswith("::digest")]
         good = len(dig) == 1
         good = good and D.show(dig[0][1][0]) == f"String::as_bytes({J})"
-        good = good and D.show(p.ret) == f"Result::Ok(<C, B::new({D.show(dex_ret(dig[0]))}))"
+        good = good and D.show(p.ret) == f"Result::Ok(Base64::new({D.show(dex_ret(dig[0]))}))"
         ctx.check(good, "C05.content_hash", "C05.content_hash:pipeline", w.where(f), bad_msg=f"hash input / result is {D.show(p.ret)}"[:300])
     sig = f["sig"]
     ctx.check("Base64<ruma_common::serde::base64::Standard, [u8; 32]>" in sig, "C05.content_hash", "C05.content_hash:encoding", w.where(f),
